@@ -952,6 +952,38 @@ Lemma unsettled_refuted :
   map (fun x => (w_id x, st_code (w_st x))) (waiters s) = [(7, 2)].
 Proof. vm_compute. repeat split; reflexivity. Qed.
 
+(* ------------------------------------------------------------------ a step of the fan-out that raises *)
+Lemma fold_until_no_raise : forall raises f l s,
+  (forall hk, In hk l -> raises hk = false) -> fold_until raises f l s = fold_left f l s.
+Proof.
+  induction l as [|hk l IH]; intros s H; [reflexivity|].
+  cbn [fold_until fold_left]. rewrite (H hk (or_introl eq_refl)). apply IH.
+  intros hk' Hin. apply H. now right.
+Qed.
+
+(* if no listener raises, the fan-out that may fail is the fan-out: everything proved above applies *)
+Theorem fanout_no_raise : forall tbl raises h s,
+  (forall hk, In hk fanout_order -> raises hk = false) -> fanout_raising tbl raises h s = fanout tbl h s.
+Proof. intros. unfold fanout_raising, fanout. now apply fold_until_no_raise. Qed.
+
+(* a listener of the Connection's 'disconnection' event raises (e.g. remove_listener of a
+   listener that is no longer registered while the event still has others): the device has
+   dropped the connection, but the GATT server, the L2CAP tables, the host's table and the data
+   queue keep their entries, and the local disconnect() (code 0) is never resolved *)
+Definition raising_prefix : list op :=
+  [Establish 1; DeliverC2H;
+   Insert "smp.Manager.sessions" (1, 0); Insert "gatt_server.Server.subscribers" (1, 0);
+   Insert "l2cap.ChannelManager.channels" (1, 0); Insert "host.DataPacketQueue._connection_state" (1, 0);
+   LocalDisc 4 1].
+
+Lemma raising_listener_refuted :
+  let s := fanout_raising model_registries (hook_eqb HkConnListeners) 1 (run model_registries raising_prefix init) in
+  dev s = [] /\ host s = [1] /\
+  map fst (regs s) = ["smp.Manager.sessions"; "gatt_server.Server.subscribers";
+                      "l2cap.ChannelManager.channels"; "host.DataPacketQueue._connection_state"]%string /\
+  map (fun x => (w_id x, st_code (w_st x))) (waiters s) = [(4, 0)].
+Proof. vm_compute. repeat split; reflexivity. Qed.
+
 (* ------------------------------------------------------------------ the model's own table *)
 Lemma model_registries_cleaned : all_cleaned model_registries = true.
 Proof. vm_compute. reflexivity. Qed.
